@@ -74,6 +74,8 @@ def attribute(ev, cl, tags, trace):
     if op in ("Histogram", "StackBuild", "FractionBuild"):
         # conversions outside the listed properties: only their purity belongs to a property (C06: operands unchanged);
         # Fraction.build deliberately keeps its arguments, and the contents they produce are no property's claim
+        if op == "Histogram":
+            return {"C06"} if cl in ("frame", "noshare") else set()     # histogram() copies what it keeps
         return {"C06"} if cl == "frame" else set()
     if op in NEW_OPS:
         return {"C06"} if cl in ("noshare", "identity", "frame") else {"C02", "C06"}
@@ -139,7 +141,9 @@ def attribute(ev, cl, tags, trace):
             return lineage & {"C08"}
         return {"C06"} | lineage
     if op in ("View", "CatView", "Grid2D"):
-        return {"C06"} if cl in ("frame", "noshare") else {"C13"}
+        # a view that changes the histogram it describes breaks C06 (read accessors are pure) and C13 (the views no
+        # longer agree with what was filled)
+        return {"C06", "C13"} if cl in ("frame", "noshare") else {"C13"}
     if op == "Doc":
         return {"C06"} if cl in ("frame", "noshare") else {"C04"} | lineage
     if op == "FromDoc":
